@@ -152,6 +152,11 @@ def probe_term(kind, D, N, seed, L=2.3):
         fn = nf.GradientNormNonlinearFun(D, N, derivative_operator=dop, dealiasing_fraction=2 / 3, zero_mode_fix=True, scale=b)
     elif kind == "poly":
         fn = nf.PolynomialNonlinearFun(D, N, dealiasing_fraction=2 / 3, coefficients=[0.3, -0.7, 1.1])
+    elif kind in ("general", "general_nofix"):
+        # all three scales non-zero: b0 u² + b1 ½ (1·∇)(u²) + b2 ½ |∇u|²; the documented mean-mode fix belongs to the
+        # gradient-norm part (the only part a derivative has stripped of its offset), the square term keeps its mean
+        fn = nf.GeneralNonlinearFun(D, N, derivative_operator=dop, dealiasing_fraction=2 / 3, scale_list=(0.6, -0.9, 0.7),
+                                    zero_mode_fix=(kind == "general"))
     elif kind == "vort2d":
         fn = nf.VorticityConvection2d(D, N, convection_scale=b, derivative_operator=dop, dealiasing_fraction=2 / 3)
     elif kind == "proj3d":
@@ -181,6 +186,11 @@ def probe_term(kind, D, N, seed, L=2.3):
         res = (-b * 0.5 * (q - q.mean()))[None]
     elif kind == "poly":
         res = (0.3 - 0.7 * uf[0] + 1.1 * uf[0] ** 2)[None]
+    elif kind in ("general", "general_nofix"):
+        q = sum(ddx(uf[0], j) ** 2 for j in range(D))
+        if kind == "general":
+            q = q - q.mean()
+        res = (0.6 * uf[0] ** 2 - 0.9 * 0.5 * sum(ddx(uf[0] ** 2, j) for j in range(D)) + 0.7 * 0.5 * q)[None]
     elif kind in ("vort2d", "proj3d"):
         lapf = (dopf ** 2).sum(axis=0)
         inv = np.where(lapf == 0, 0.0, 1.0 / np.where(lapf == 0, 1.0, lapf))
@@ -260,7 +270,7 @@ def oracle(ctx, deep):
         if not r["ok"]:
             fails.append({"key": f"C03:forced-variant:D{D}", "what": f"Kolmogorov nonlinear function (D={D}, N={N}, convection scale {r['convection_scale']:.3f}) is not the unforced term plus a state-independent injection: {r['bad']}",
                           "probe": "forced_variant", "args": {"D": D, "N": N, "seed": ctx.seed}, "observed": r})
-    kinds = ["conv_c", "conv_nc", "conv_sc", "gradnorm", "poly", "cubic", "vort2d", "proj3d"]
+    kinds = ["conv_c", "conv_nc", "conv_sc", "gradnorm", "poly", "cubic", "general", "general_nofix", "vort2d", "proj3d"]
     sizes = {1: [9, 12, 13, 15, 16, 18], 2: [6, 7, 9], 3: [6, 7]} if not deep else {1: list(range(5, 30)), 2: list(range(5, 14)), 3: [5, 6, 7, 8]}
     for D in (1, 2, 3):
         for N in sizes[D]:
